@@ -89,6 +89,7 @@ package internal
 //@   modifies buf[:], object(r).err
 //@   ensures 0 <= n && n <= len(buf)
 //@   ensures err == nil <==> n == len(buf)
+//@   ensures (n == 0 && len(buf) > 0) <==> err == io.EOF
 //@ trusted func ext:encoding/binary.littleEndian.Uint64
 //@   requires len(b) >= 8
 
